@@ -47,6 +47,43 @@ def to_json(e, X=None):
     return {"k": "other", "w": -1, "n": type(e).__name__}
 
 
+def from_json_shared(t):
+    """like from_json, but structurally identical sub-trees of t become ONE Python object (a DAG, as code that
+    reuses sub-expression objects produces); still no sharing with module-level singletons"""
+    import json as _j
+    memo = {}
+
+    def build(x):
+        key = _j.dumps(x, sort_keys=True)
+        if key not in memo:
+            y = dict(x)
+            if "a" in x:
+                kids = [build(c) for c in x["a"]]
+                memo[key] = _from_parts(x, kids, [build(c) for c in x.get("g", [])])
+            else:
+                memo[key] = from_json(x)
+        return memo[key]
+    return build(t)
+
+
+def _from_parts(t, kids, segs):
+    from miasmx.expression import expression as X
+    k = t["k"]
+    if k == "mem":
+        return X.ExprMem(kids[0], t["w"], segs[0] if segs else None)
+    if k == "op":
+        return X.ExprOp(t["o"], *kids)
+    if k == "cond":
+        return X.ExprCond(*kids)
+    if k == "slice":
+        return X.ExprSlice(kids[0], t["lo"], t["hi"])
+    if k == "compose":
+        return X.ExprCompose([(c, s[0], s[1]) for c, s in zip(kids, t["s"])])
+    if k == "aff":
+        return X.ExprAff(kids[0], kids[1])
+    raise ValueError(k)
+
+
 def from_json(t, X=None, M=None):
     """builds FRESH objects (no sharing with module-level singletons)"""
     if X is None:
